@@ -603,6 +603,16 @@ def mk_probes(tier, only=None):
                                ("do", "int k = 0; do { if (k++) return 1; } while (a); return 0;"), ("ternary", "return a ? 1 : 0;"),
                                ("lnot", "return !a ? 0 : 1;"), ("land", "return a && 1;"), ("lor", "return a || 0;")]:
                 P.append(e2.ScalarProbe("cond/%s/%s" % (form, t.cid), fn(), INT, [t], body, truth, family="cond", max_visits=6))
+        # short-circuit operators whose operands have DIFFERENT types, as controlling expressions: each operand is tested
+        # for zero at its own type and width (the guarded statement runs iff the C11 truth value says so)
+        pairs = [(a_, b_) for a_ in cref.INT9 for b_ in cref.INT9 if a_.bits != b_.bits] if full else \
+                [(cref.INT, cref.LONG), (cref.LONG, cref.INT), (cref.CHAR, cref.ULONG), (cref.ULONG, cref.SHORT), (cref.UINT, cref.LONG), (cref.BOOL, cref.LONG), (cref.LONG, cref.UCHAR)]
+        for t1, t2 in pairs:
+            for op, nm in (("||", "lor"), ("&&", "land")):
+                ref = (lambda op: lambda a, b: (z3.If((z3.Or if op == "||" else z3.And)(a != 0, b != 0), z3.BitVecVal(1, 32), z3.BitVecVal(0, 32)), TRUE))(op)
+                for form, body in [("if", "if (a %s b) return 1; return 0;" % op), ("while", "while (a %s b) return 1; return 0;" % op),
+                                   ("ternary-not", "return !(a %s b) ? 0 : 1;" % op)]:
+                    P.append(e2.ScalarProbe("cond/mixed-%s/%s/%s/%s" % (nm, form, t1.cid, t2.cid), fn(), INT, [t1, t2], body, ref, family="cond", max_visits=6))
     return P
 
 
